@@ -26,7 +26,9 @@ LEADS = ["", "", "\n", "# top\n\n", "\n\n"]
 TAILS = ["", "", "", "\n", "\n# trailing\n", "# trailing\n"]
 
 VALUES = ["n", "  n m ", "n\n c2", "n\n\tc2\n c3", "", "n\n# ic\n c", "x: y", "#hash", "m\n .\n x",
-          "\n c", "n\n c\n", "é 漢"]
+          "\n c", "n\n c\n", "é 漢",
+          # blanks at the end of a continuation line belong to the value ("later lines verbatim")
+          "n\n c2  ", "n\n c \t\n", "n\n c1 \n\tc2", "n  \n c"]
 
 
 @st.composite
